@@ -30,7 +30,7 @@ INFO = {
     "coq_files": ["model/EntReg.v", "theory/EntRegTheory.v"],
     "trusted_base": [
         "generated goals are instances of model/EntReg.v E1_at / E2_at / E3_at on list-encoded tensors (t1/t2/t3), proved by coq-interval (i_prec 80) and checked by Qed",
-        "tolerances: eps1 = 1e-11*scale; isclose band atol 1e-8, rtol 1e-5 (torch defaults) widened by 0.1%; eps3 = lam*KL(pi||softmax) (mpmath, rounded up) + 1e-9*scale; scale = max(1,|v|,|q|,|R|)",
+        "tolerances: eps1 = 1e-13*scale; isclose band atol 1e-8, rtol 1e-5 (torch defaults) widened by 0.1%; eps3 = lam*KL(pi||softmax) (mpmath, rounded up) + 1e-12*scale; scale = max(1,|v|,|q|,|T*R|) (float64 rounding of the look-ahead / linear solve is ~1e-15*scale)",
         "mpmath (60 digits) evaluation of the same clauses: used to choose the temperature literal and to classify a goal that interval cannot prove; never to accept a clause",
         "exact optimal values by policy iteration over fractions.Fraction (lambda -> 0 clause)",
     ],
@@ -55,14 +55,16 @@ def split(rng, k, denom):
     return [b - a for a, b in zip([0] + cuts, cuts + [denom])]
 
 
-def gen_mdp(rng, nS=None, nA=None, anchor=False, rscale=1, gamma=None):
+def gen_mdp(rng, nS=None, nA=None, anchor=False, rscale=1, gamma=None, nondyadic=None):
     nS = nS or rng.randint(2, 6)
     nA = nA or rng.choice([1, 2, 2, 3, 3, 4, 4])
+    if nondyadic is None:
+        nondyadic = rng.random() < .25
     T = []
     for s in range(nS):
         rows = []
         for a in range(nA):
-            denom = rng.choice([2, 4, 8, 16])
+            denom = rng.choice([3, 5, 7, 10, 10]) if nondyadic and not anchor else rng.choice([2, 4, 8, 16])
             k = rng.randint(1, min(nS, 3, denom))
             sup = rng.sample(range(nS), k)
             if anchor and 0 not in sup:          # every row reaches state 0: bounded value spans
@@ -88,7 +90,8 @@ def gen_mdp(rng, nS=None, nA=None, anchor=False, rscale=1, gamma=None):
     R = [[[str(rscale * rng.randint(-5, 5)) for _ in range(dims[2])] for _ in range(dims[1])] for _ in range(dims[0])]
     if shape == "full" and nA >= 2 and T[0][0] == T[0][1] and rng.random() < .7:
         R[0][1] = list(R[0][0])
-    return {"nS": nS, "nA": nA, "T": T, "R": R, "gamma": gamma or rng.choice(["1/2", "9/10"])}
+    return {"nS": nS, "nA": nA, "T": T, "R": R,
+            "gamma": gamma or rng.choice(["1/2", "9/10"] + (["1/3", "19/20", "7/10"] if nondyadic else []))}
 
 
 def gen_prior(rng, nS, nA):
@@ -100,7 +103,8 @@ def gen_prior(rng, nS, nA):
     def row():
         if rng.random() < .2:
             return [str(F(1, nA))] * nA
-        return [str(F(p, 16)) for p in split(rng, nA, 16)]
+        d = rng.choice([16, 16, 10, 7]) if nA <= 7 else 16
+        return [str(F(p, d)) for p in split(rng, nA, d)]
     return [row() for _ in range(rows)]
 
 
@@ -231,6 +235,65 @@ def fam_boundary(rng, variant):
     if variant == "reward_1e5":
         m = gen_mdp(rng, rscale=100000, gamma="1/2")
         return [base(rng, m, "boundary:" + variant, lam="10", lam_style=rng.choice(["float", "int", "tensor1"]))]
+    if variant == "tiny_decisive":
+        # a branch of probability 2^-k carrying the integer reward +-c*2^k: it moves the action value by c
+        m = gen_mdp(rng, nS=rng.randint(3, 6), nA=rng.choice([2, 3]), nondyadic=False)
+        nS, nA = m["nS"], m["nA"]
+        m["R"] = [[[str(rng.randint(-3, 3)) for _ in range(nS)] for _ in range(nA)] for _ in range(nS)]
+        ks = []
+        for s in rng.sample(range(nS), 2):
+            a, k = rng.randrange(nA), rng.choice([27, 30, 40, 53, 60])
+            j, n = rng.sample(range(nS), 2)
+            row = [F(0)] * nS
+            row[j], row[n] = 1 - F(1, 2**k), F(1, 2**k)
+            m["T"][s][a] = [str(x) for x in row]
+            m["R"][s][a][n] = str(rng.choice([-3, -2, 2, 3]) * 2**k)
+            ks.append(k)
+        lam, style = gen_weight(rng, nS, lams=["1/10", "1/2", "1", "2"])
+        return [base(rng, m, "boundary:" + variant, lam=lam, lam_style=style, tiny_exponents=ks)]
+    if variant == "tiny_prior":
+        # prior 2^-k on the action whose reward advantage is about lam*k*ln 2: it still gets about half the mass
+        m = gen_mdp(rng, nA=rng.choice([2, 3, 4]))
+        nS, nA = m["nS"], m["nA"]
+        k, lam = rng.choice([27, 30, 40, 60]), rng.choice(["1/2", "1", "2"])
+        best = rng.randrange(nA)
+        adv = int(round(float(F(lam)) * k * 0.6931)) + rng.choice([-1, 0, 1])
+        m["R"] = [[[str(rng.randint(-1, 1) + (adv if a == best else 0))] for a in range(nA)] for _ in range(nS)]
+        row = [(1 - F(1, 2**k)) / (nA - 1)] * nA
+        row[best] = F(1, 2**k)
+        return [base(rng, m, "boundary:" + variant, lam=lam, lam_style=rng.choice(["float", "tensor1"]),
+                     pi0=[[str(x) for x in row]], tiny_exponents=[k])]
+    if variant in ("big_neartie_1e3", "big_neartie_1e6"):
+        # rewards B + (-5..5): values ~ B/(1-gamma), gaps between actions of relative size 1e-6 .. 1e-3
+        B = 1000 if variant.endswith("1e3") else 10**6
+        m = gen_mdp(rng, nA=rng.choice([2, 3, 4]), gamma=rng.choice(["1/2", "9/10"]))
+        m["R"] = [[[str(B + int(x)) for x in r] for r in mm] for mm in m["R"]]
+        lam, style = gen_weight(rng, m["nS"], lams=["1/2", "1", "2", "5"])
+        return [base(rng, m, "boundary:" + variant, lam=lam, lam_style=style)]
+    if variant == "nondyadic":
+        m = gen_mdp(rng, nA=rng.choice([2, 3]), nondyadic=True)
+        nA = m["nA"]
+        prior = [["7/10", "3/10"]] if nA == 2 else [["7/10", "1/5", "1/10"]]
+        return [base(rng, m, "boundary:" + variant, lam=rng.choice(["1/10", "3/10", "1/3", "7/10"]),
+                     lam_style=rng.choice(["float", "tensor1"]), pi0=prior)]
+    if variant == "square":
+        # as many states as actions (every (S,.) / (.,A) shape coincides), per-state weight and (S,A) prior
+        n = rng.choice([2, 3, 4])
+        m = gen_mdp(rng, nS=n, nA=n)
+        return [base(rng, m, "boundary:" + variant, lam=[rng.choice(LAMS) for _ in range(n)], lam_style="per_state",
+                     pi0=[[str(F(p, 16)) for p in split(rng, n, 16)] for _ in range(n)])]
+    if variant == "chain":
+        # corridor of n = 5 or 6 states (not a power of two): the goal reward has to travel n-1 steps
+        n = rng.choice([5, 6])
+        T = [[["0"] * n for _ in range(2)] for _ in range(n)]
+        R = [[["-1"] * n for _ in range(2)] for _ in range(n)]
+        for s in range(n):
+            T[s][0][min(s + 1, n - 1)] = "1"
+            T[s][1][max(s - 1, 0)] = "1"
+        R[n - 1][0] = ["5"] * n
+        m = {"nS": n, "nA": 2, "T": T, "R": R, "gamma": "9/10"}
+        return [base(rng, m, "boundary:" + variant, lam=rng.choice(LOW_LAMS + MID_LAMS), lam_style=rng.choice(["float", "tensor1"]),
+                     pi0=None, n_iters=5000)]
     raise ValueError(variant)
 
 
@@ -239,6 +302,10 @@ def fam_init(rng, variant):
     (zeros: nansum branch without clamping, clamp branch with it)"""
     m = gen_mdp(rng, nA=rng.choice([2, 3, 4]))
     nS, nA = m["nS"], m["nA"]
+    if variant == "shared":
+        # the SAME tensor object is passed as prior and as initial policy, no clamping (pi aliases the caller's tensor)
+        pr = [[str(F(p, 8)) for p in split(rng, nA, 8)] for _ in range(nS)]
+        return [base(rng, m, "init:shared", init="prior", pi0=pr, force_nonzero=False)]
     if variant == "onehot":
         init = [[("1" if a == k else "0") for a in range(nA)] for k in [rng.randrange(nA) for _ in range(nS)]]
     else:
@@ -366,11 +433,12 @@ def fam_history(rng, variant):
 
 
 SCHEDULE = (
-    [("general",)] * 4 + [("ladder",)] + [("planner", v) for v in ("perm", "str", "tuple", "start", "prior", "default_cap", "cap1", "reuse")]
-    + [("general",)] * 3
-    + [("boundary", v) for v in ("gamma0_int", "gamma0_float", "gamma_near_1", "tiny_prob", "prior_edge", "one_state", "reward_1e3", "reward_1e5")]
+    [("general",)] * 3 + [("ladder",)] + [("planner", v) for v in ("perm", "str", "tuple", "start", "prior", "default_cap", "cap1", "reuse")]
+    + [("general",)] * 2
+    + [("boundary", v) for v in ("gamma0_int", "gamma0_float", "gamma_near_1", "tiny_prob", "prior_edge", "one_state", "reward_1e3", "reward_1e5",
+                                   "tiny_decisive", "tiny_prior", "big_neartie_1e3", "big_neartie_1e6", "nondyadic", "square", "chain")]
     + [("neartie", "low"), ("history", "turns"), ("neartie", "vector"), ("history", "turns"), ("neartie", "low"), ("history", "pause"), ("neartie", "mid")]
-    + [("general",)] * 2 + [("init", "onehot"), ("init", "random"), ("cap", 1), ("cap", 2), ("repr", "views"), ("repr", "repeat")]
+    + [("general",)] + [("init", "onehot"), ("init", "random"), ("init", "shared"), ("cap", 1), ("cap", 2), ("repr", "views"), ("repr", "repeat")]
     + [("general",)])
 FAMS = {"general": fam_general, "ladder": fam_ladder, "planner": fam_planner, "boundary": fam_boundary,
         "init": fam_init, "cap": fam_cap, "repr": fam_repr, "neartie": fam_neartie, "history": fam_history}
@@ -452,9 +520,9 @@ class Eval:
         self.pi = [[vlib.frac(x) for x in row] for row in res["pi"]]
         self.v = [vlib.frac(x) for x in res["v"]]
         self.scale = max([F(1)] + [abs(x) for x in self.v] + [abs(x) for r in self.q for x in r]
-                         + [abs(x) for m in self.R for r in m for x in r])
-        self.eps1 = F(1, 10**11) * self.scale
-        self.slack3 = F(1, 10**9) * self.scale
+                         + [abs(t * x) for mt, mr in zip(self.T, self.R) for rt, rr in zip(mt, mr) for t, x in zip(rt, rr)])
+        self.eps1 = F(1, 10**13) * self.scale
+        self.slack3 = F(1, 10**12) * self.scale
         self.atol = F(1001, 1000) * F(1, 10**8)
         self.rtol = F(1001, 1000) * F(1, 10**5)
         self.temperature = "given"
@@ -664,7 +732,7 @@ def exact_qstar(T, R, g):
 # ---------------------------------------------------------------------------
 def run(ctx):
     tier = ctx.tier
-    ncases = 45 if tier == "quick" else 450
+    ncases = 50 if tier == "quick" else 500
     if ctx.replay_case:
         cases = [ctx.replay_case["detail"]["case"]]
     else:
@@ -676,7 +744,9 @@ def run(ctx):
              "via_planner": 0, "force_nonzero": 0, "per_state_weight": 0, "prior_default": 0, "prior_per_state": 0,
              "reward_broadcast": 0, "clamped_policy_entries": 0, "zero_policy_entries": 0, "iterations_max": 0,
              "states_dropped_by_reachability": 0, "repeat_calls": 0, "repeat_calls_differ": 0, "max_abs_exponent": 0.0,
-             "max_abs_value": 0.0}
+             "max_abs_value": 0.0, "inputs_mutated": 0, "nondyadic_transitions": 0, "nondyadic_prior": 0, "nondyadic_discount": 0,
+             "tiny_probability_cases_2^-27..2^-60": 0, "states_equal_actions": 0, "one_action": 0, "one_state": 0,
+             "max_reward_magnitude": 0.0, "min_relative_action_gap": None}
     by_lam, by_group = {}, {}
     for i, (case, res) in enumerate(zip(cases, impl)):
         if "error" in res:
@@ -692,6 +762,20 @@ def run(ctx):
         g = by_group.setdefault(case["group"], {"cases": 0, "converged": 0})
         g["cases"] += 1
         g["converged"] += bool(res["converged"])
+        def nd(x):
+            d = F(x).denominator
+            return d & (d - 1) != 0
+        stats["nondyadic_transitions"] += any(nd(x) for mm in case["T"] for r in mm for x in r)
+        stats["nondyadic_prior"] += case["pi0"] is not None and any(nd(x) for r in case["pi0"] for x in r)
+        stats["nondyadic_discount"] += nd(case["gamma"])
+        stats["tiny_probability_cases_2^-27..2^-60"] += bool(case.get("tiny_exponents"))
+        stats["states_equal_actions"] += case["nS"] == case["nA"]
+        stats["one_action"] += case["nA"] == 1
+        stats["one_state"] += case["nS"] == 1
+        stats["max_reward_magnitude"] = max(stats["max_reward_magnitude"], max(abs(float(F(x))) for mm in case["R"] for r in mm for x in r))
+        if res.get("inputs_mutated"):
+            stats["inputs_mutated"] += 1
+            ctx.violation("C19:%s:caller-objects-mutated" % case["via"], {"case": case, "impl": res}, found=False)
         if res.get("repeat_same") is not None:
             stats["repeat_calls"] += 1
             stats["repeat_calls_differ"] += not res["repeat_same"]
@@ -712,6 +796,12 @@ def run(ctx):
         stats["zero_policy_entries"] += sum(1 for row in ev.pi for x in row if x == 0)
         stats["max_abs_exponent"] = max(stats["max_abs_exponent"], max(float((ev.c[s] - x) / ev.lam[s]) for s in range(ev.nS) for x in ev.q[s]))
         stats["max_abs_value"] = max(stats["max_abs_value"], float(max(abs(x) for x in ev.v)))
+        for s_ in range(ev.nS):
+            qs = sorted(ev.q[s_])
+            if len(qs) >= 2 and qs[-1] != qs[-2] and qs[-1] != 0:
+                rel = float((qs[-1] - qs[-2]) / abs(qs[-1]))
+                if stats["min_relative_action_gap"] is None or rel < stats["min_relative_action_gap"]:
+                    stats["min_relative_action_gap"] = rel
         for l in set(ev.lam_given):
             by_lam[str(l)] = by_lam.get(str(l), 0) + 1
         L, goals = case_module(i, ev, select_entries(ev, ctx.rng, tier))
